@@ -299,6 +299,37 @@ func H_C07_bfrange_array_and_offset_forms() {
 	vReach("end")
 }
 
+// H_C07_output_is_nfc: whatever the font maps a code to, the text handed out is in Unicode normal form C - also for
+// text that contains no combining mark (singletons, conjoining jamo, composition exclusions).
+//
+//symgo:harness prop=C07 kernel=K4-nfc
+//symgo:desc ToUnicode CMap (one-byte codes) whose targets are, enumerated: OHM SIGN U+2126, ANGSTROM SIGN U+212B, the jamo pair U+1100 U+1161, e + COMBINING ACUTE, DEVANAGARI QA U+0958 (a composition exclusion), the Tamil pair U+0BC6 U+0BBE, or plain "A"; and the same text as a UTF-16BE string with byte-order mark through a font without ToUnicode (enumerated path); NormalizeUnicode is NOT cut here: it runs host-native on the concrete text: the decoded text equals the NFC form given by the Unicode tables (U+03A9, U+00C5, U+AC00, U+00E9, U+0915 U+093C, U+0BCA, A)
+func H_C07_output_is_nfc() {
+	targets := []struct{ hex, nfc string }{
+		{"2126", "\u03a9"}, {"212B", "\u00c5"}, {"11001161", "\uac00"}, {"00650301", "\u00e9"},
+		{"0958", "\u0915\u093c"}, {"0BC60BBE", "\u0bca"}, {"0041", "A"},
+	}
+	t := targets[vAnyIntIn(0, len(targets)-1)]
+	f := NewFont("F1", "Helvetica", "Type1")
+	var got string
+	if vAnyIntIn(0, 1) == 0 {
+		prog := "/CIDInit /ProcSet findresource begin 12 dict begin begincmap\n1 begincodespacerange\n<00> <FF>\nendcodespacerange\n1 beginbfchar\n<41> <" + t.hex + ">\nendbfchar\nendcmap"
+		cm, err := ParseToUnicodeCMap(&core.Stream{Dict: core.Dict{}, Data: []byte(prog)})
+		vAssert("cmap-parses", err == nil && cm != nil)
+		f.ToUnicodeCMap = cm
+		got = f.DecodeString([]byte{0x41})
+	} else {
+		raw := []byte{0xFE, 0xFF}
+		for i := 0; i+1 < len(t.hex); i += 2 {
+			raw = append(raw, byte(vHexV(t.hex[i]))<<4|byte(vHexV(t.hex[i+1])))
+		}
+		got = f.DecodeString(raw)
+	}
+	vObserveStr("decoded", got)
+	vAssert("text-is-in-normal-form-c", got == t.nfc)
+	vReach("end")
+}
+
 // H_C07_tounicode_precedence: a font with a ToUnicode CMap decodes by it even when the code string happens to start with
 // the bytes of a UTF-16 byte-order mark, and even when an Encoding is present.
 //
